@@ -54,6 +54,7 @@ type ampRouter struct {
 	rewriteToServer func(idx int, types []protocol.PacketType, data []byte, odcid []byte) (crafted []byte, what string)
 	odcid                []byte
 	trace                []string
+	wire                 []string // Coq terms (WRecv n validates | WSend n)
 	viol                 []ampViolation
 	start                time.Time
 	nUnvalidated         int  // server datagrams emitted while unvalidated
@@ -102,6 +103,7 @@ func (r *ampRouter) SendPacket(p simnet.Packet) error {
 		if tokLen > 0 && !r.closed {
 			r.validated = true
 		}
+		r.wire = append(r.wire, u.App("WRecv", u.Z(int64(len(p.Data))), u.B(r.validated)))
 		r.trace = append(r.trace, fmt.Sprintf("%v C>S#%d %dB %s (delivered=%d validated=%v)", now, idx, len(p.Data), desc, r.delivered, r.validated))
 	case r.client:
 		idx := r.nToClient
@@ -118,6 +120,7 @@ func (r *ampRouter) SendPacket(p simnet.Packet) error {
 				r.closed = true
 			}
 		}
+		r.wire = append(r.wire, u.App("WSend", u.Z(n)))
 		r.trace = append(r.trace, fmt.Sprintf("%v S>C#%d %dB %s (sent=%d)", now, idx, n, desc, r.sent))
 		if !r.validated {
 			r.nUnvalidated++
@@ -409,6 +412,11 @@ func ampConnScenario(w *bufio.Writer, r *u.Rng, idx, kind int, dist map[string]i
 	if (kind == ampPlain || kind == ampRetry) && !completed {
 		fmt.Fprintf(w, "MONFAIL\tampconn/handshake-failed\thandshake without faults did not complete: %v\t%s || %s\n", dialErr, human, strings.Join(router.trace, " | "))
 	}
+	nt := 0
+	if router.atLimit {
+		nt = 1
+	}
+	fmt.Fprintf(w, "CASE %d %s\n", nt, u.App("WireCase", u.List(router.wire)))
 	if idx < ampNKinds {
 		fmt.Fprintf(w, "SAMPLE\t%s || %s\n", human, strings.Join(router.trace, " | "))
 	}
